@@ -1,11 +1,11 @@
 INIT Init
 NEXT Next
 CONSTANTS
-  FactorNames <- N_small
+  FactorNames <- N_q7
   Powers <- P_pm2
   MaxFactors = 2
   Mags <- M_one
-  TargetNames <- N_small
+  TargetNames <- N_q7
   TargetPowers <- P_pm2
   MaxTFactors = 2
   ScaleKs <- K_one
